@@ -193,6 +193,9 @@ class EditHooks(SysHooks):
                     ov = sm.expr(over, st)
                 except Unsupported:
                     cf = None
+                # the index domain of [f(x) for x in it] is the index domain of it
+                while isinstance(ov, Sym) and isinstance(ov.key, tuple) and len(ov.key) == 3 and ov.key[0] == "listcomp":
+                    ov = ov.key[2]
                 if cf is not None:
                     st.env[res] = Sym(("FIRST" if not form.endswith("-last") else "LAST", show_f(cf), vkey(ov), vkey(st.env[res])))
                     return [(st, None)]
